@@ -9,7 +9,7 @@ VERIF = os.path.dirname(os.path.dirname(os.path.abspath(__file__)))
 CHECKS = {
     'C05': (
         'exploration',
-        'bounded exhaustive enumeration: all strings <= n over a 39-character alphabet and all sequences of <= m grammar tokens, against a reference tokenisation oracle',
+        'bounded exhaustive enumeration: all strings <= n over a 40-character alphabet and all sequences of <= m grammar tokens, against a reference tokenisation oracle',
         'DESIGN.md 3/C05',
         'Every string of length <=4 (quick) / <=5 (thorough) over one representative per character class of the CSS grammar, in both '
         'fullsheet modes, plus every sequence of <=2 / <=3 token spellings from a 130-entry menu with every admissible separator, is '
